@@ -235,7 +235,7 @@ Proof.
   destruct (p v) eqn:E; [apply IH|]. rewrite <- IH.
   destruct (io_inert I v m E) as (H1 & _). rewrite H1. reflexivity.
 Qed.
-Lemma filter_keep M l :
+Lemma filter_keep M (l : list (string * T)) :
   filter (fun av => eqb K (snd av) M) l = filter (fun av => eqb K (snd av) M) (keep l).
 Proof.
   induction l as [|[a v] l IH]; [reflexivity|]. cbn [keep filter snd].
@@ -265,7 +265,7 @@ Proof.
   intros E. induction l as [|[a v] l IH]; [reflexivity|]. cbn [vmin snd].
   destruct (io_inert I m v E) as (_ & H2 & _). rewrite H2. exact IH.
 Qed.
-Lemma filter_outside l m : p m = false -> filter (fun av => eqb K (snd av) m) l = [].
+Lemma filter_outside (l : list (string * T)) m : p m = false -> filter (fun av => eqb K (snd av) m) l = [].
 Proof.
   intros E. induction l as [|[a v] l IH]; [reflexivity|]. cbn [filter snd].
   destruct (io_inert I m v E) as (_ & _ & _ & H4). rewrite H4. exact IH.
